@@ -118,10 +118,11 @@ PreAt(s, e) ==
                         /\ Eng(s2, e.d) \in PopEngines \cup ShotEngines
                    THEN \* more iterations than configured generations
                         R([DoIter(s2, e.d, BatchCalls(e.b, e.d)) EXCEPT !.gen = s2.gen],
-                          a.errs \cup {"C06_GenerationsPerMetaepoch"})
+                          a.errs \cup {"Info_MoreConsultsThanGenerations"})
                    ELSE R(Force(s2, e), a.errs \cup {"Desync"})
-      [] e.e = "lsc" ->
-           IF e.d \in Ids(s) /\ EnLsc(s, e.d) THEN R(s, {}) ELSE R(Force(s, e), {"Desync"})
+      [] e.e = "lsc" ->     \* a local condition consulted outside the protocol is a stutter of the model: if it
+                            \* stops the deme, the next snapshot shows a deme that stopped without a cause
+           IF e.d \in Ids(s) /\ EnLsc(s, e.d) THEN R(s, {}) ELSE R(s, {"Desync"})
       [] e.e = "gsc" /\ e.by = "step" ->
            LET a == Advance(s, e.b, NoDeme, {}) IN
            IF EnPostGsc(a.st) THEN a ELSE R(Force(a.st, e), a.errs \cup {"Desync"})
@@ -162,7 +163,7 @@ Compare(s, sn) ==
          THEN {IF HibOn(s) THEN "C18_HibIffNoSproutInLastRound" ELSE "C18_OffMeansNever"} ELSE {})
    \cup (IF counted /\ \E d \in common : SnapRec(sn, d).ev # s.D[d].evals THEN {"C03_DemeCountEqualsCalls"} ELSE {})
    \cup (IF \E d \in common : SnapRec(sn, d).me # s.D[d].me THEN {"C06_SteppedExactlyOnce"} ELSE {})
-   \cup (IF \E d \in common : SnapRec(sn, d).gens # s.D[d].gens THEN {"C06_GenerationsRecorded"} ELSE {})
+   \cup (IF \E d \in common : SnapRec(sn, d).gens # s.D[d].gens THEN {"Info_GenerationsRecorded"} ELSE {})
    \cup (IF \E d \in common : \/ SnapRec(sn, d).lvl # s.D[d].lvl
                               \/ SnapRec(sn, d).sa # s.D[d].startedAt
                               \/ (d # RootId /\ SnapRec(sn, d).par # s.D[d].parent)
